@@ -64,6 +64,7 @@ type FuncContract struct {
 	NoPanic  bool
 	Loops    map[int]*LoopSpec
 	LoopAnchors map[int]string // negative pseudo-ordinals of loops named by source text
+	LoopOptional map[int]bool  // `loop? "text" ...`: clauses apply only if such a loop exists
 	Cuts     []*CutSpec
 	Calls    []*CallSpec
 	Lets     []*Clause // let name = expr (evaluated at entry)
@@ -240,6 +241,11 @@ func ParseContractFile(path, pkgPath string) (*ContractFile, error) {
 		case "loop":
 			// a loop is named by its ordinal (1-based, by position) or by the source text of its
 			// `for` line: loop "for _, x := range xs" ... (robust against loops added elsewhere)
+			optional := false
+			if strings.HasPrefix(rest, "?") {
+				optional = true
+				rest = strings.TrimSpace(rest[1:])
+			}
 			if strings.HasPrefix(rest, "\"") {
 				q, err := strconv.QuotedPrefix(rest)
 				if err != nil {
@@ -267,6 +273,12 @@ func ParseContractFile(path, pkgPath string) (*ContractFile, error) {
 						cur.LoopAnchors = map[int]string{}
 					}
 					cur.LoopAnchors[ord] = anchor
+				}
+				if optional {
+					if cur.LoopOptional == nil {
+						cur.LoopOptional = map[int]bool{}
+					}
+					cur.LoopOptional[ord] = true
 				}
 				rest = fmt.Sprintf("%d %s", ord, strings.TrimSpace(rest[len(q):]))
 			}
@@ -341,7 +353,17 @@ func ParseContractFile(path, pkgPath string) (*ContractFile, error) {
 					return nil, fmt.Errorf("%s:%d: bad anchor", path, ln)
 				}
 				anchor, _ := strconv.Unquote(q)
-				rest = strings.TrimSpace(rest[len(q):])
+				rest = rest[len(q):]
+				// optional occurrence: "text"#2 is the second statement (in source order) starting with text
+				if strings.HasPrefix(rest, "#") {
+					k := 1
+					for k < len(rest) && rest[k] >= '0' && rest[k] <= '9' {
+						k++
+					}
+					anchor += "\x00" + rest[1:k]
+					rest = rest[k:]
+				}
+				rest = strings.TrimSpace(rest)
 				before := false
 				if strings.HasPrefix(rest, "before ") {
 					before = true
